@@ -56,6 +56,7 @@ type Params struct {
 	ReplayP      float64 // read-only replay of L2's values
 	CleanAgainP  float64
 	PreDeleteP   float64 // a standalone file is removed by hand before a lifetime
+	PreCorruptP  float64 // a snapshot file is damaged (storage fault) before a lifetime
 	ExtraLifeP   float64 // a further edited run with another environment before the closing replay
 	NonTestNames bool
 }
@@ -786,6 +787,9 @@ func World(seed uint64, index int, p *Params) *check.World {
 	}
 	if r.Bool(p.PreDeleteP) {
 		l2.PreDelete = 1 + r.Intn(50)
+	}
+	if r.Bool(p.PreCorruptP) {
+		l2.PreCorrupt = 1 + r.Intn(500)
 	}
 	w.Lifetimes = append(w.Lifetimes, l2)
 	if r.Bool(p.ExtraLifeP) {
